@@ -43,11 +43,12 @@ type limCase struct {
 	Handler bool
 	Procs   int
 	Timed   bool // after the first Wait() the idle Limiter is also waited on with a timeout (returns at once)
+	Twin    bool // a second Limiter with the same limit argument is kept saturated for the whole scenario
 }
 
 func gen(t *rapid.T) limCase {
 	c := limCase{Limit: rapid.OneOf(rapid.IntRange(1, 6), rapid.IntRange(-2, 6)).Draw(t, "limit"), Handler: rapid.IntRange(0, 3).Draw(t, "handler") != 0,
-		Procs: rapid.SampledFrom([]int{1, 2, 4, 16}).Draw(t, "procs"), Timed: rapid.Bool().Draw(t, "timed")}
+		Procs: rapid.SampledFrom([]int{1, 2, 4, 16}).Draw(t, "procs"), Timed: rapid.Bool().Draw(t, "timed"), Twin: rapid.IntRange(0, 3).Draw(t, "twin") == 0}
 	n := rapid.IntRange(1, 24).Draw(t, "ntasks")
 	for i := 0; i < n; i++ {
 		c.Tasks = append(c.Tasks, task{B: rapid.SampledFrom([]int{bReturn, bYield, bGate, bGate, bGate, bPanicBeforeGate, bPanicAfterGate, bPanicNow}).Draw(t, "b"), K: rapid.IntRange(0, 5).Draw(t, "k")})
@@ -182,8 +183,8 @@ func goroutineState() (st gstate) {
 		// stdout file lock inside the default panic handler - will change on its own
 		parked := false
 		switch {
-		case strings.Contains(head, "[chan receive") && strings.Contains(g, "(*world).body"):
-			parked = true // a function parked on its harness gate
+		case strings.Contains(head, "[chan receive") && (strings.Contains(g, "(*world).body") || strings.Contains(g, "c19.run.func")):
+			parked = true // a function parked on its harness gate (or a function of the twin Limiter parked on its hold channel)
 		case strings.Contains(head, "[chan send") && strings.Contains(g, "goz.(*Limiter).add"):
 			parked = true // waiting for a slot
 		case strings.Contains(g, "goz.(*Limiter).Wait") && (strings.Contains(head, "[semacquire") || strings.Contains(head, "[sync.WaitGroup.Wait") || strings.Contains(head, "[chan receive") || strings.Contains(head, "[select")):
@@ -270,6 +271,25 @@ func run(c limCase, r *pb.Rec) error {
 	}
 	if c.Procs >= 1 {
 		defer runtime.GOMAXPROCS(runtime.GOMAXPROCS(c.Procs))
+	}
+	if c.Twin {
+		// an independent Limiter created with the same argument holds all of ITS slots for the whole scenario:
+		// limiters must not share capacity
+		twin := goz.NewLimiter(c.Limit)
+		hold := make(chan struct{})
+		var in int32
+		for i := 0; i < n; i++ {
+			twin.Go(func() { atomic.AddInt32(&in, 1); <-hold })
+		}
+		for deadline := time.Now().Add(20 * time.Second); atomic.LoadInt32(&in) < int32(n); {
+			if time.Now().After(deadline) {
+				close(hold)
+				return inconclusive{"the twin Limiter did not start its functions within 20s"}
+			}
+			runtime.Gosched()
+		}
+		defer func() { close(hold); twin.Wait() }()
+		r.Class("second Limiter saturated alongside")
 	}
 	l := goz.NewLimiter(c.Limit)
 	w := &world{n: n, execs: make([]int32, len(c.Tasks)+n), gates: make([]chan struct{}, len(c.Tasks)+n), parked: make([]int32, len(c.Tasks)+n), opened: make([]int32, len(c.Tasks)+n)}
@@ -436,7 +456,7 @@ func run(c limCase, r *pb.Rec) error {
 func TestLimiter(t *testing.T) {
 	st := pb.Stats("limiter")
 	st.SetRule("scenarios: limit -2..6 (below 1 => 3), 1..24 functions that return / yield / park on a harness gate / panic (before or after the gate), drawn gate release order, with or without panic handler, GOMAXPROCS 1..16; the harness releases one gate at a time, each time from a quiescent state, and after Wait() submits n more parked functions that must all run concurrently; monitors: concurrency never above n, exactly-once execution, Wait() only after all finished, handler receives every panic value, no slot leaked (state-based: submitter parked in the Limiter's channel send while fewer than n functions hold slots); schedules inside the Limiter are sampled, not owned; non-trivial = a panic followed by a saturation phase")
-	st.Require("timed Wait on the idle Limiter", "saturated: submitter blocked with all slots held", "panics raised", "limit below 1 (default 3)", "panic without handler", "limit reached")
+	st.Require("second Limiter saturated alongside", "timed Wait on the idle Limiter", "saturated: submitter blocked with all slots held", "panics raised", "limit below 1 (default 3)", "panic without handler", "limit reached")
 	// the default panic handler prints to stdout: keep the test output clean (swapped once, not per case)
 	if dn, err := os.OpenFile(os.DevNull, os.O_WRONLY, 0); err == nil {
 		old := os.Stdout
